@@ -146,15 +146,15 @@ def identName : Expr → Option Bs
   | .ident n => some n
   | _ => none
 
-/-- Key and value of a for-in header (`none` = the parser reports "expected identifier"). For three or
-more names Go leaves both nil without an error. -/
+/-- Key and value of a for-in header (`none` = the parser reports "expected identifier", or "expected
+1 or 2 identifiers" for three or more names). -/
 def forInNames : Exprs → Option (Option Bs × Option Bs)
   | .cons x .nil => (identName x).map (fun v => (some [95], some v))
   | .cons x (.cons y .nil) =>
     match identName x, identName y with
     | some k, some v => some (some k, some v)
     | _, _ => none
-  | _ => some (none, none)
+  | _ => none
 
 macro "lt_tac" : tactic =>
   `(tactic| ((try simp only [List.length_cons] at *); omega))
